@@ -333,8 +333,11 @@ func balancers(w []int) []balancer {
 // serverIndex maps lb-internal order to our server numbering: accessors return values in the balancer's
 // own URL order, which for the weighted balancers is the map iteration order chosen by the explorer. We
 // therefore compare multisets keyed by weight class where order matters.
-func history(b balancer, depth int) h.Scenario {
-	name := "history/" + b.name
+// pre is a scripted prefix of operations (values of the history-op choice) that is applied before the explored
+// part: it puts the balancer into a non-initial state (e.g. two servers whose effective weight failures have
+// driven to zero) from which the depth-bounded exploration starts.
+func history(b balancer, depth int, tag string, pre []int) h.Scenario {
+	name := "history/" + b.name + tag
 	return h.Scenario{Name: name, Quick: 0, Thorough: 0, Run: func(ch vs.Chooser, trace bool) (*vs.Sched, h.Outcome) {
 		var o h.Outcome
 		var hist []string
@@ -357,10 +360,15 @@ func history(b balancer, depth int) h.Scenario {
 			if b.weights != nil {
 				modelEff = append([]int{}, b.weights...)
 			}
-			for step := 0; step < depth; step++ {
+			for step := 0; step < len(pre)+depth; step++ {
 				// enabled operations: start a call; finish any in-flight call with S, E or P; stop
 				nops := 1 + 3*len(calls) + 1
-				c := vs.Choose(nops, "history-op")
+				var c int
+				if step < len(pre) {
+					c = pre[step]
+				} else {
+					c = vs.Choose(nops, "history-op")
+				}
 				if c == nops-1 {
 					break
 				}
@@ -539,8 +547,15 @@ func main() {
 	var scen []h.Scenario
 	depth := 5
 	for _, b := range balancers([]int{2, 1, 1}) {
-		hs := history(b, depth)
+		hs := history(b, depth, "", nil)
 		scen = append(scen, hs)
+	}
+	// from a non-initial state: weights {1,1,1} after two calls that failed one after the other (they went to two
+	// different servers, whose effective weight is now 0), then every history of depth 4
+	for _, b := range balancers([]int{1, 1, 1}) {
+		if b.weights != nil {
+			scen = append(scen, history(b, depth-1, "/after-two-failures", []int{0, 2, 0, 2}))
+		}
 	}
 	for _, b := range balancers([]int{2, 1}) {
 		c := concurrent(b, 3)
